@@ -203,9 +203,13 @@ func ZZ_C18_Reload() {
 	zzvf.Assert(obs.n == 1, "reload/observer-notified-on-first-load")
 	zzPoll(c)
 	zzvf.Assert(obs.n == 1, "reload/no-notification-without-change")
-	kind := zzvf.Choose(4)
+	kind := zzvf.Choose(5)
 	var dt int64
 	switch kind {
+	case 4:
+		// the file system's clock did not advance between the two writes (timestamps are taken from the
+		// kernel's coarse clock: two writes within one tick, a few milliseconds, get the SAME mtime)
+		dt = 0
 	case 0:
 		dt = 1 + int64(zzvf.IntRange(0, 999999998)) // same second, later nanosecond
 	case 1:
@@ -218,9 +222,13 @@ func ZZ_C18_Reload() {
 	zzvf.FsWrite(path, []byte("zzk1="+b+"\nzzk3=new\n"), zzT0+dt)
 	zzPoll(c)
 	zzPoll(c) // "once the file stops changing": further cycles do not matter
-	zzvf.Assert(c.GetValue("zzk1") == b, "reload/edited-value-visible/"+[]string{"same-second", "next-second", "later", "older-mtime"}[kind])
-	zzvf.Assert(c.GetValue("zzk3") == "new", "reload/added-key-visible/"+[]string{"same-second", "next-second", "later", "older-mtime"}[kind])
-	zzvf.Assert(zzvf.Implies(a != b, obs.n == 2), "reload/observer-notified-once-per-change")
+	zzvf.Assert(c.GetValue("zzk1") == b, "reload/edited-value-visible/"+[]string{"same-second", "next-second", "later", "older-mtime", "same-timestamp"}[kind])
+	zzvf.Assert(c.GetValue("zzk3") == "new", "reload/added-key-visible/"+[]string{"same-second", "next-second", "later", "older-mtime", "same-timestamp"}[kind])
+	obsLabel := "reload/observer-notified-once-per-change"
+	if kind == 4 {
+		obsLabel += "/same-timestamp"
+	}
+	zzvf.Assert(zzvf.Implies(a != b, obs.n == 2), obsLabel)
 	zzvf.Observe("n", obs.n)
 	zzvf.Reach("reload")
 }
